@@ -861,9 +861,7 @@ class Compound(Event, abc.ABC, list[T], typing.Generic[T]):
         # copy mustn't share mutable state (its tempo, the side attributes
         # of a subclass) with its source.
         for attribute in self._class_specific_side_attribute_tuple:
-            value = getattr(self, attribute)
-            if not callable(value):
-                setattr(empty_copy, attribute, copy.deepcopy(value))
+            setattr(empty_copy, attribute, copy.deepcopy(getattr(self, attribute)))
         empty_copy.extend([event.destructive_copy() for event in self])
         return empty_copy
 
@@ -889,7 +887,7 @@ class Compound(Event, abc.ABC, list[T], typing.Generic[T]):
         return type(self)(
             [],
             **{
-                a: v if callable(v := getattr(self, a)) else copy.deepcopy(v)
+                a: copy.deepcopy(getattr(self, a))
                 for a in self._class_specific_side_attribute_tuple
             },
         )
